@@ -61,6 +61,20 @@ def features(spec, sched=None):
     if sched is not None:
         both = [t for t in both if not sched["tasks"][t]["scheduled"]]
     f["nc_buffer_load_and_unload_by_unscheduled_optional_task"] = bool(both)
+    # KF-ORDGRP: an ordered group with an unscheduled optional member between two scheduled ones
+    inner = False
+    for c in spec.get("constraints", []):
+        if c["type"] != "OrderedTaskGroup" or len(c["tasks"]) < 3:
+            continue
+        lst = c["tasks"]
+        for i, t in enumerate(lst[1:-1], start=1):
+            if not tasks[t]["optional"]:
+                continue
+            if sched is None:
+                inner = True
+            elif not sched["tasks"][t]["scheduled"] and any(sched["tasks"][x]["scheduled"] for x in lst[:i]) and any(sched["tasks"][x]["scheduled"] for x in lst[i + 1:]):
+                inner = True
+    f["ordered_group_with_unscheduled_inner_member"] = inner
     # KF-CUMSEL: a selection lists a cumulative worker
     cum = {c["name"] for c in spec.get("cumulative", [])}
     f["select_lists_cumulative"] = any(set(s["workers"]) & cum for s in spec.get("selects", []))
